@@ -25,7 +25,7 @@ func (jenny *Serializers) Generate(context languages.Context) (codejen.Files, er
 	for _, schema := range context.Schemas {
 		var hasErr error
 		schema.Objects.Iterate(func(key string, obj ast.Object) {
-			if obj.Type.HasHint(ast.HintDisjunctionOfScalars) {
+			if obj.Type.IsStruct() && obj.Type.HasHint(ast.HintDisjunctionOfScalars) {
 				f, err := jenny.genSerializer(obj)
 				if err != nil {
 					hasErr = err
